@@ -39,6 +39,10 @@ TNext ==
          [] e.k = "ddgone" ->
               /\ (added # dead) => Viol("C16: an object handed to the container was not destroyed by the time the container is gone")
               /\ gone' = TRUE /\ UNCHANGED <<added, owned, dead, cbd, inop, cbOn>>
+         \* stall policy: a thread was held inside user code (callback, destructor) and this one could not finish its call
+         [] e.k = "starved" ->
+              /\ (inop[e.t] \in {"add", "add_temp", "size"}) => Viol("C16: add / size waits for a callback or destructor: user code runs under the container's lock")
+              /\ UNCHANGED mv
          [] e.k \in {"deadlock", "budget"} -> Viol("C16: deadlock (user code re-entering the container, or a leaked lock)") /\ UNCHANGED mv
          [] e.k \in {"crash", "terminate", "escaped"} -> Viol("C16: crash") /\ UNCHANGED mv
          [] OTHER -> UNCHANGED mv
